@@ -36,8 +36,11 @@ def exc_class(name):
     return table[name]
 
 
-def make_exc(name, msg):
+def make_exc(name, msg, args=None):
     cls = exc_class(name)
+    if args is not None and name != "CallableRuntimeError":
+        # exception arguments of any shape: KeyError(404), ValueError(), RuntimeError("a", uuid) ...
+        return cls(*[mkvalue(a) for a in args])
     if name == "CallableRuntimeError":
         return cls(msg, "UserType", None, None)
     return cls(msg)
@@ -69,6 +72,8 @@ def mkvalue(spec):
         return {kk: mkvalue(v) for kk, v in spec[1].items()}
     if k == "big":
         return "x" * int(spec[1])
+    if k == "bigu":  # non-ASCII text: 1 character = 3 UTF-8 bytes = 6 escaped JSON characters
+        return "\u65e5" * int(spec[1])
     if k == "set":  # not serialisable by the default serdes
         return {1, 2}
     if k == "obj":  # not JSON-serialisable at all
@@ -175,6 +180,36 @@ def _x_serdes(serdes_mod):
     return _XS["cls"]()
 
 
+def _flaky_serdes(serdes_mod, w, pos, spec):
+    """A custom SerDes as a user would write one around an external store: the SDK's extended codec behind a prefix,
+    with scripted transient failures. `spec` = {"ser": [k...], "de": [k...]}: the k-th serialize / deserialize call of this
+    statement (counted over the whole execution, the counter lives in the world) raises."""
+    if "flaky" not in _XS:
+        class _Flaky(serdes_mod.SerDes):
+            def __init__(self, w, pos, spec):
+                self._w, self._pos, self._spec = w, pos, spec
+
+            def _count(self, which):
+                c = self._w.serdes_calls.setdefault(self._pos, {"ser": 0, "de": 0})
+                c[which] += 1
+                if c[which] in self._spec.get(which, ()):
+                    self._w.fire("serdes-error:" + which)
+                    self._w.rec("serdes-fail", pos=self._pos, which=which, n=c[which])
+                    raise OSError(f"blob store {'write' if which == 'ser' else 'read'} failed")
+
+            def serialize(self, value, serdes_context):
+                self._count("ser")
+                return "F" + serdes_mod.EXTENDED_TYPES_SERDES.serialize(value, serdes_context)
+
+            def deserialize(self, data, serdes_context):
+                self._count("de")
+                if not data.startswith("F"):
+                    raise ValueError("not an F payload")
+                return serdes_mod.EXTENDED_TYPES_SERDES.deserialize(data[1:], serdes_context)
+        _XS["flaky"] = _Flaky
+    return _XS["flaky"](w, pos, spec)
+
+
 def _digest(s):
     import hashlib
     return hashlib.blake2b(s.encode(), digest_size=8).hexdigest()
@@ -232,7 +267,8 @@ class Interp:
         try:
             import json as _json
             sj = _json.dumps(res)
-            w.rec("handler-exit", size=len(sj), digest=_digest(sj), serialisable=True)
+            w.rec("handler-exit", size=len(sj), digest=_digest(sj), serialisable=True,
+                  size_min=min(len(sj), len(_json.dumps(res, ensure_ascii=False).encode())))
         except (TypeError, ValueError):
             w.rec("handler-exit", size=None, digest=None, serialisable=False)
         return res
@@ -259,7 +295,7 @@ class Interp:
             getattr(ctx.logger, st.get("level", "info"))(f"L:{pos}")
             return ["log"]
         if op == "raise":
-            ex_ = make_exc(st["cls"], st.get("msg", "user raise at " + pos) if "size" not in st else "E" * st["size"])
+            ex_ = make_exc(st["cls"], st.get("msg", "user raise at " + pos) if "size" not in st else ("\u65e5" if st.get("uni") else "E") * st["size"], st.get("args"))
             self.w.rec("user-raise", pos=pos, cls=st["cls"], inv_level=isinstance(ex_, self.exc.InvocationError))
             raise ex_
         if op == "item":
@@ -328,7 +364,7 @@ class Interp:
             w.crash_here("fn-exit")
         if beh["do"] == "raise":
             w.rec("fn-exit", pos=pos, n=j, attempt=attempt, outcome="raise", cls=beh["cls"], msg=beh.get("msg", "boom"))
-            raise make_exc(beh["cls"], beh.get("msg", "boom"))
+            raise make_exc(beh["cls"], beh.get("msg", "boom"), beh.get("args"))
         v = mkvalue(beh["v"])
         w.rec("fn-exit", pos=pos, n=j, attempt=attempt, outcome="ret", v=canon(v))
         return v
@@ -385,7 +421,7 @@ class Interp:
     def op_step(self, ctx, st, pos, item):
         C = self.cfgmod
         sem = C.StepSemantics.AT_MOST_ONCE_PER_RETRY if st.get("sem") == "amo" else C.StepSemantics.AT_LEAST_ONCE_PER_RETRY
-        cfg = C.StepConfig(retry_strategy=self._retry_strategy(pos, st.get("retry")), step_semantics=sem)
+        cfg = C.StepConfig(retry_strategy=self._retry_strategy(pos, st.get("retry")), step_semantics=sem, serdes=self._fserdes(st, pos))
 
         def fn(step_ctx):
             return self._user_fn(pos, st.get("fn", {}), "step", step_ctx.logger)
@@ -399,7 +435,7 @@ class Interp:
         C = self.cfgmod
         c = st.get("cfg") or {}
         cfg = C.CallbackConfig(timeout=C.Duration(seconds=c.get("timeout", 0)),
-                               heartbeat_timeout=C.Duration(seconds=c.get("hb", 0)))
+                               heartbeat_timeout=C.Duration(seconds=c.get("hb", 0)), serdes=self._fserdes(st, pos))
         cb = ctx.create_callback(name=pos, config=cfg)
         self.w.rec("cb-created", pos=pos, callback_id=cb.callback_id)
         try:
@@ -459,7 +495,8 @@ class Interp:
             w.rec("check-enter", pos=pos, state=canon(state))
             return self._user_fn(pos, st.get("check", {}), "check", cctx.logger)
 
-        cfg = W.WaitForConditionConfig(wait_strategy=strategy, initial_state=mkvalue(st.get("initial", ["int", 0])))
+        cfg = W.WaitForConditionConfig(wait_strategy=strategy, initial_state=mkvalue(st.get("initial", ["int", 0])),
+                                       serdes=self._fserdes(st, pos))
         return ctx.wait_for_condition(check, cfg, name=pos)
 
     def op_child(self, ctx, st, pos, item):
@@ -472,7 +509,14 @@ class Interp:
             self.w.rec("body-exit", pos=pos, bkind="child", v=canon(v))
             return v
 
+        fs = self._fserdes(st, pos)
+        if fs is not None:
+            return ctx.run_in_child_context(body, name=pos, config=self.cfgmod.ChildConfig(serdes=fs))
         return ctx.run_in_child_context(body, name=pos)
+
+    def _fserdes(self, st, pos):
+        spec = st.get("fserdes")
+        return None if spec is None else _flaky_serdes(self.serdes, self.w, pos, spec)
 
     def _completion(self, c):
         C = self.cfgmod
